@@ -28,11 +28,39 @@ func runC06(c *Ctx) {
 	// as in a session: locations are resolved against the assets
 	env = flows.NewAssetsEnvironment(env, sa.Locations())
 	var qids []string
+	// corpus first: an active contact that is in static groups and, as stored, in no query-based group, and stops being active
+	// (the only membership change is the loss of the static groups, which must be reported all the same); location values
+	type c06Case struct {
+		cj  string
+		mod func() modCase
+	}
+	var corpus []c06Case
+	for _, st := range []string{"blocked", "stopped", "archived"} {
+		for _, gs := range [][]string{staticGroupUUIDs[:1], staticGroupUUIDs} {
+			var gj []string
+			for _, g := range gs {
+				gj = append(gj, fmt.Sprintf(`{"uuid": %q, "name": "g"}`, g))
+			}
+			st := st
+			corpus = append(corpus, c06Case{fmt.Sprintf(`{"uuid": "5d76d86b-3bb9-4d5a-b822-c9d86f5d8e4f", "id": 1234, "name": "Cy", "status": "active", "created_on": "2023-01-02T03:04:05Z", "groups": [%s]}`, strings.Join(gj, ", ")),
+				func() modCase { return modCase{"status", modifiers.NewStatus(flows.ContactStatus(st)), "", "status " + st} }})
+		}
+	}
+	for _, fk := range []string{"state", "district", "ward"} {
+		for _, val := range []string{"Rwanda > Kigali City > Gasabo", "Rwanda > Kigali City > Gasabo > Gisozi", "Kigali City", "Rwanda > Eastern Province > Rwamagana"} {
+			fk, val := fk, val
+			corpus = append(corpus, c06Case{`{"uuid": "5d76d86b-3bb9-4d5a-b822-c9d86f5d8e4f", "id": 1234, "name": "Cy", "status": "active", "created_on": "2023-01-02T03:04:05Z"}`,
+				func() modCase { return modCase{"field", modifiers.NewField(sa.Fields().Get(fk), val), "", "field " + fk + "=" + val} }})
+		}
+	}
 	n := c.N(6000, 300000)
-	for i := 0; i < n; i++ {
+	for i := 0; i < n+len(corpus); i++ {
 		eng := engine.NewBuilder().Build()
 		correct := r.Chance(50)
 		cj := genContactJSON(r, false)
+		if i < len(corpus) {
+			cj, correct = []byte(corpus[i].cj), false
+		}
 		contact, err := readContact(sa, cj, env, correct)
 		if err != nil {
 			continue
@@ -72,6 +100,9 @@ func runC06(c *Ctx) {
 		}
 
 		mc := genModifier(r, sa, env, contact, it, 640)
+		if i < len(corpus) {
+			mc = corpus[i].mod()
+		}
 		desc["modifier"] = mc.desc
 		wasCorrect := len(groupInvFailures(sa, env, contact)) == 0
 		before, _ := viewOf(contact)
